@@ -151,13 +151,44 @@ class Project:
                 tree = ast.parse(src, filename=rel)
             except SyntaxError as e:
                 raise AnalysisError(f"{rel}: does not parse: {e}")
-            from .normalize import normalize
-
-            normalize(tree)  # equivalent idioms are read in one spelling (sa/normalize.py); the text is untouched
             m = Module(name, rel, src, tree, is_pkg)
             self.modules[name] = m
+        from .normalize import module_literals, normalize, propagate_literals
+
         for m in self.modules.values():
             self._index_imports(m)
+        # named literal constants are read as their literal, wherever they are defined or imported (N10) …
+        lits = {m.name: module_literals(m.tree) for m in self.modules.values()}
+
+        def resolve_literal(modname, name, depth=0):
+            if depth > 6 or modname not in self.modules:
+                return None
+            if name in lits[modname]:
+                return lits[modname][name]
+            imp = self.modules[modname].imports.get(name)
+            if imp and imp[1] is not None:
+                return resolve_literal(imp[0], imp[1], depth + 1)
+            return None
+
+        from .normalize import module_dict_constants
+
+        dicts = {m.name: module_dict_constants(m.tree) for m in self.modules.values()}
+
+        def resolve_dict(modname, name, depth=0):
+            if depth > 6 or modname not in self.modules:
+                return None
+            if name in dicts[modname]:
+                return dicts[modname][name]
+            imp = self.modules[modname].imports.get(name)
+            if imp and imp[1] is not None:
+                return resolve_dict(imp[0], imp[1], depth + 1)
+            return None
+
+        propagate_literals({m.name: (m.tree, m.imports) for m in self.modules.values()}, resolve_literal, resolve_dict)
+        for m in self.modules.values():
+            normalize(m.tree)  # … and equivalent idioms in one spelling (sa/normalize.py); the text is untouched
+            ast.fix_missing_locations(m.tree)
+        for m in self.modules.values():
             self._index_defs(m, m.tree.body, prefix="", cls=None, parent=None)
         from .inline import see_through_new_helpers
 
@@ -387,6 +418,29 @@ class Project:
                         found.add(None)
         if len(found) == 1 and None not in found:
             return self.classes[next(iter(found))]
+        if not found:
+            # declared, not assigned here: a class-level annotation `attr: SomeClass` in this class or a base
+            # (a mixin that relies on the host class to provide the attribute)
+            chain = [ci]
+            seen = {ci.qual}
+            while chain:
+                c = chain.pop(0)
+                for s in c.node.body:
+                    if isinstance(s, ast.AnnAssign) and isinstance(s.target, ast.Name) and s.target.id == attr:
+                        ann = s.annotation
+                        if isinstance(ann, ast.Constant) and isinstance(ann.value, str):
+                            nm = ann.value
+                        else:
+                            nm = ast.unparse(ann)
+                        nm = nm.replace("Optional[", "").rstrip("]").split(".")[-1]
+                        kind, obj = self.resolve_name(c.module.name, nm)
+                        if kind == "class":
+                            return obj
+                for b in c.bases:
+                    kind, obj = self.resolve_name(c.module.name, b.split(".")[-1].split("[")[0])
+                    if kind == "class" and obj.qual not in seen:
+                        seen.add(obj.qual)
+                        chain.append(obj)
         return None
 
     def lookup_method(self, ci: ClassInfo, name: str, depth: int = 0) -> Optional[FuncInfo]:
